@@ -19,6 +19,7 @@ CallClauses(ev) ==
     [] ev.call = "copy"         -> Clauses_copy(ev) @@ NewTableClauses(ev)
     [] ev.call = "update_ids"   -> Clauses_update_ids(ev) @@ InplaceClauses(ev)
     [] ev.call = "align_to"     -> Clauses_align_to(ev) @@ NewTableClauses(ev)
+    [] ev.call = "align_df"     -> Clauses_align_df(ev) @@ NewTableClauses(ev)
     [] ev.call = "read"         -> Clauses_read(ev)
     [] ev.call = "probe"        -> Clauses_probe(ev)
     [] ev.call = "eq"           -> Clauses_eq(ev)
@@ -50,7 +51,7 @@ CallClauses(ev) ==
     [] OTHER -> [TRACE_unknown_call |-> FALSE]
 
 CallProp(call) ==
-  CASE call \in {"filter", "remove_empty", "head"} -> "C08"
+  CASE call \in {"filter", "remove_empty", "head", "align_df"} -> "C08"
     [] call \in {"sort_order", "sort", "transpose", "copy", "update_ids", "align_to"} -> "C06"
     [] call = "merge" -> "C09" [] call = "concat" -> "C10" [] call \in {"partition", "collapse"} -> "C11"
     [] call = "subsample" -> "C12" [] call \in {"transform", "norm", "pa", "rankdata"} -> "C13"
@@ -66,7 +67,7 @@ AllShaped(h) == \A s \in DOMAIN h : Shaped(h[s])
 \* operations documented to return a new table: the frame rule applies whatever the domain of
 \* the operation's own property is
 NewTableCalls == {"sort", "sort_order", "transpose", "copy", "head", "subsample", "partition", "collapse", "merge",
-                  "concat", "align_to"}
+                  "concat", "align_to", "align_df"}
 \* calls whose clauses read the result table ev.post[ev.res] when the call reports success
 ResultCalls == (NewTableCalls \ {"partition"}) \cup {"rt_hdf5", "rt_json", "rt_tsv", "subset_read", "construct",
                                                     "from_adjacency", "parse_uc", "cli_add_metadata"}
